@@ -103,13 +103,16 @@ def gen_case(rng, allow=None):
 
 
 def explore(ctx, rng, count):
-    cases = []
+    cases, known = [], []
     for _ in range(count):
         c = gen_case(rng)
         if disc.known_region(ctx, c, REGIONS):
             ctx.skipped_known += 1
+            if c["units_seed"] is None:
+                known.append(c)
             continue
         cases.append(c)
+    D.compare_mirror_only(ctx, known)
     for c, v in D.compare_offline_batch(ctx, cases):
         ctx.evaluations += 1
         ctx.count("stream:" + c["stream"])
